@@ -117,6 +117,8 @@ try:
     meta["checks"] = merged
     if not a.needs and old.get("needs"):
         meta["needs"] = old["needs"]
+    if old.get("history"):
+        meta["history"] = old["history"]
     json.dump(meta, open(mp, "w"), indent=1)
 finally:
     shutil.rmtree(d, True)
